@@ -560,3 +560,229 @@ def assemble_ext(a):
             x = t // 2
             out += push_n(x, 2) + push_n(t - x, 2) + bytes([0x01])
     return out
+
+
+# ----------------------------------------------------------------------------------------------
+# idiom compiler: ground-truth storage layouts -> bytecode in the style compilers emit
+
+ADDR_MASK = 2 ** 160 - 1
+
+
+class Var:
+    """kind: 'word' | 'address' | 'mapping' | 'dynarray' | 'packed'
+       mapping: keys = list of 'word' | 'address' (depth = len), value = 'word' | 'address'
+       packed: fields = list of (offset_bits, size_bits) at byte boundaries
+       access: 'read' | 'write' | 'both'"""
+
+    def __init__(self, kind, slot, access="both", keys=None, value="word", fields=None, style="shl"):
+        self.kind, self.slot, self.access = kind, slot, access
+        self.keys, self.value, self.fields, self.style = keys or [], value, fields or [], style
+
+
+def _arg(a, i):
+    """the i-th 32-byte call-data argument"""
+    a.push(4 + 32 * i).op("CALLDATALOAD")
+
+
+def _ret_top(a):
+    a.push(0).op("MSTORE").push(0x20).push(0).op("RETURN")
+
+
+def _mapping_slot(a, v):
+    """leaves keccak(key_d . ... keccak(key_1 . slot)) on the stack"""
+    a.push(v.slot)
+    for i, kk in enumerate(v.keys):
+        # stack: current slot
+        a.push(0x20).op("MSTORE")                     # mstore(0x20, slot)
+        _arg(a, i)
+        if kk == "address":
+            a.push(ADDR_MASK).op("AND")
+        a.push(0).op("MSTORE")                        # mstore(0, key)
+        a.push(0x40).push(0).op("SHA3")
+
+
+def compile_branch(a, v, rng):
+    modes = {"read": ["r"], "write": ["w"], "both": ["r", "w"]}[v.access]
+    for mode in modes:
+        if v.kind in ("word", "address"):
+            if mode == "r":
+                a.push(v.slot).op("SLOAD")
+                if v.kind == "address":
+                    a.push(ADDR_MASK).op("AND")
+                a.push(0).op("MSTORE")
+            else:
+                _arg(a, 0)
+                if v.kind == "address":
+                    a.push(ADDR_MASK).op("AND")
+                a.push(v.slot).op("SSTORE")
+        elif v.kind == "mapping":
+            if mode == "r":
+                _mapping_slot(a, v)
+                a.op("SLOAD")
+                if v.value == "address":
+                    a.push(ADDR_MASK).op("AND")
+                a.push(0).op("MSTORE")
+            else:
+                _arg(a, len(v.keys))
+                if v.value == "address":
+                    a.push(ADDR_MASK).op("AND")
+                _mapping_slot(a, v)
+                a.op("SSTORE")
+        elif v.kind == "dynarray":
+            if mode == "r":
+                a.push(v.slot).op("SLOAD").op("POP")          # length
+                a.push(v.slot).push(0).op("MSTORE").push(0x20).push(0).op("SHA3")
+                _arg(a, 0)
+                a.op("ADD").op("SLOAD").push(0).op("MSTORE")
+            else:
+                _arg(a, 1)
+                a.push(v.slot).push(0).op("MSTORE").push(0x20).push(0).op("SHA3")
+                _arg(a, 0)
+                a.op("ADD").op("SSTORE")
+        elif v.kind == "packed":
+            for fi, (off, size) in enumerate(v.fields):
+                mask = 2 ** size - 1
+                if mode == "r":
+                    a.push(v.slot).op("SLOAD")
+                    if off:
+                        if v.style == "shl":
+                            a.push(off).op("SHR")
+                        else:
+                            a.push(2 ** off).raw([0x90]).op("DIV")       # SWAP1 DIV
+                    a.push(mask).op("AND").push(0x20 * fi).op("MSTORE")
+                else:
+                    # sstore(slot, (sload(slot) & ~(mask << off)) | ((arg & mask) << off))
+                    _arg(a, fi)
+                    a.push(mask).op("AND")
+                    if off:
+                        if v.style == "shl":
+                            a.push(off).op("SHL")
+                        else:
+                            a.push(2 ** off).op("MUL")
+                    a.push(v.slot).op("SLOAD")
+                    a.push((2 ** 256 - 1) ^ (mask << off)).op("AND")
+                    a.op("OR")
+                    a.push(v.slot).op("SSTORE")
+    a.op("STOP")
+
+
+def compile_layout(vs, rng, dispatcher="selector"):
+    """one dispatch branch per variable"""
+    a = Asm()
+    if dispatcher == "selector":
+        a.push(0).op("CALLDATALOAD").push(0xe0).op("SHR")
+        for i, v in enumerate(vs):
+            a.raw([0x80]).push(0x1000 + i).op("EQ").push_label("V%d" % i).op("JUMPI")
+        a.op("STOP")
+    else:   # chain of conditional jumps on independent conditions
+        for i, v in enumerate(vs):
+            _arg(a, 7 + i)
+            a.push_label("V%d" % i).op("JUMPI")
+        a.op("STOP")
+    for i, v in enumerate(vs):
+        a.label("V%d" % i)
+        compile_branch(a, v, rng)
+    return a.assemble()
+
+
+def random_vars(rng, n, slots=None):
+    """n ground-truth variables at distinct slots"""
+    pool = [0, 1, 2, 3, 4, 5, 6, 7, 8, 9, 10, 11, 17, 100, 255, 256, 1000, 2 ** 16, 2 ** 64 + 3, 2 ** 128 + 7,
+            2 ** 200 + 11, 2 ** 255 + 1]
+    slots = slots or rng.sample(pool, n)
+    out = []
+    for s in slots:
+        k = rng.choice(["word", "address", "mapping", "mapping", "dynarray", "packed", "packed"])
+        access = rng.choice(["read", "write", "both"])
+        if k == "mapping":
+            d = rng.randrange(1, 5)
+            out.append(Var("mapping", s, access, keys=[rng.choice(["word", "address"]) for _ in range(d)],
+                           value=rng.choice(["word", "address"])))
+        elif k == "packed":
+            nf = rng.randrange(2, 7)
+            cuts = sorted(rng.sample(range(1, 32), nf - 1))
+            bounds = [0] + cuts + [32]
+            fields = [(8 * bounds[i], 8 * (bounds[i + 1] - bounds[i])) for i in range(nf)]
+            out.append(Var("packed", s, access, fields=fields, style=rng.choice(["shl", "mul"])))
+        else:
+            out.append(Var(k, s, access))
+    return out
+
+
+def gvar_term(v):
+    if v.kind == "word":
+        return "(GWord %d)" % v.slot
+    if v.kind == "address":
+        return "(GAddr %d)" % v.slot
+    if v.kind == "mapping":
+        return "(GMap %d [%s] %s)" % (v.slot, ";".join("true" if k == "address" else "false" for k in v.keys),
+                                      "true" if v.value == "address" else "false")
+    if v.kind == "dynarray":
+        return "(GDyn %d)" % v.slot
+    return "(GPacked %d [%s])" % (v.slot, ";".join("(%d,%d)" % f for f in v.fields))
+
+
+def mask_shift_programs(rng, bw, n):
+    """mask-and-shift code with shift amounts and mask positions anywhere in 0..2^256"""
+    out = []
+    shifts = [0, 1, 7, 8, 9, 16, 96, 128, 160, 200, 248, 255, 256, 257, 300, 512, 2 ** 16, 2 ** 32, 2 ** 64 - 1, 2 ** 64,
+              2 ** 255, 2 ** 256 - 1]
+    for _ in range(n):
+        a = Asm()
+        for _ in range(rng.randrange(1, 5)):
+            slot = rng.randrange(0, 6)
+            kind = rng.randrange(7)
+            width = rng.choice([1, 8, 16, 32, 64, 128, 160, 192, 255, 256])
+            mask = (2 ** width - 1) if width < 256 else 2 ** 256 - 1
+            sh = rng.choice(shifts) if rng.random() < 0.5 else 8 * rng.randrange(0, 40)
+            if kind == 0:      # (sload >> sh) & mask
+                a.push(slot).op("SLOAD").push(sh).op("SHR").push(mask).op("AND").push(slot + 10).op("SSTORE")
+            elif kind == 1:    # sload & (mask << sh)
+                a.push(slot).op("SLOAD").push((mask << (sh % 300)) % 2 ** 256).op("AND").push(slot + 10).op("SSTORE")
+            elif kind == 2:    # (sload & mask) * 2^k
+                a.push(slot).op("SLOAD").push(mask).op("AND").push(2 ** (sh % 256)).op("MUL").push(slot + 10).op("SSTORE")
+            elif kind == 3:    # (sload & mask) << sh
+                a.push(slot).op("SLOAD").push(mask).op("AND").push(sh).op("SHL").push(slot + 10).op("SSTORE")
+            elif kind == 4:    # or of two shifted fields (possibly overlapping / unordered)
+                a.push(slot).op("SLOAD").push(mask).op("AND").push(sh).op("SHL")
+                a.push(slot + 1).op("SLOAD").push(rng.choice([0xff, 0xffff, ADDR_MASK])).op("AND").push(rng.choice(shifts)).op("SHL")
+                a.op("OR").push(slot + 10).op("SSTORE")
+            elif kind == 5:    # read-modify-write with an arbitrary (non-contiguous) mask
+                a.push(0).op("CALLDATALOAD").push(mask).op("AND").push(sh).op("SHL")
+                a.push(slot).op("SLOAD").push(rng.choice(bw)).op("AND").op("OR").push(slot).op("SSTORE")
+            else:              # division style extraction
+                a.push(slot).op("SLOAD").push(2 ** (sh % 256)).raw([0x90]).op("DIV").push(mask).op("AND").push(slot + 10).op("SSTORE")
+        a.op("STOP")
+        out.append(a.assemble())
+    return out
+
+
+def hashing_programs(rng, bw, n, with_storage):
+    """keccak(key || constant) and keccak(constant) + i computations, without (or mixed with) storage accesses"""
+    out = []
+    for _ in range(n):
+        a = Asm()
+        for _ in range(rng.randrange(1, 6)):
+            c = rng.choice([0, 1, 2, 3, 5, 7, 100, 9999, 2 ** 64, 2 ** 200])
+            kind = rng.randrange(6)
+            if kind == 0:      # keccak(calldata || c) used as a plain value
+                a.push(c).push(0x20).op("MSTORE").push(4).op("CALLDATALOAD").push(0).op("MSTORE").push(0x40).push(0).op("SHA3")
+                a.push(0x60).op("MSTORE")
+            elif kind == 1:    # keccak(c) + i
+                a.push(c).push(0).op("MSTORE").push(0x20).push(0).op("SHA3").push(rng.randrange(5)).op("ADD").push(0x80).op("MSTORE")
+            elif kind == 2:    # masks and arithmetic
+                a.push(4).op("CALLDATALOAD").push(ADDR_MASK).op("AND").push(rng.choice(bw)).op("ADD").op("POP")
+            elif kind == 3 and with_storage:
+                s = rng.randrange(0, 8)
+                if rng.random() < 0.5:
+                    a.push(s).op("SLOAD").op("POP")
+                else:
+                    a.push(4).op("CALLDATALOAD").push(s).op("SSTORE")
+            elif kind == 4 and with_storage:   # hash-shaped VALUE stored at a literal slot (finding K3's shape)
+                a.push(c).push(0x20).op("MSTORE").push(4).op("CALLDATALOAD").push(0).op("MSTORE").push(0x40).push(0).op("SHA3")
+                a.push(rng.randrange(0, 4)).op("SSTORE")
+            else:              # log / return the hash
+                a.push(c).push(0).op("MSTORE").push(0x20).push(0).op("SHA3").push(0).op("MSTORE").push(0x20).push(0).op("LOG0")
+        a.op("STOP")
+        out.append(a.assemble())
+    return out
